@@ -167,7 +167,7 @@ def _gen_snapshot(rng):
     preload = [[keys[i % len(keys)], 'p%d' % i] for i in range(rng.randint(0, max_size))]
     nops = sum(len(t) for t in writers) + 1
     return {'mode': 'snapshot', 'cls': cls, 'max_size': max_size, 'on_miss': 'none', 'preload': preload, 'threads': writers,
-            'how': rng.choice(['update', 'ior', 'values']), 'sched': _gen_sched(rng, nops)}
+            'how': rng.choice(['update', 'ior', 'values']), 'own_cls': rng.choice(['LRI', 'LRU']), 'sched': _gen_sched(rng, nops)}
 
 
 def gen_case(rng, tier):
@@ -305,11 +305,12 @@ def fixed_cases(tier):
             a1 = _retag(a, 'a')
             n = steps[(cls, 'none', ia)]
 
-            def mks(j, cls=cls, a1=a1):
-                return {'mode': 'snapshot', 'cls': cls, 'max_size': 2, 'on_miss': 'none', 'preload': _PRE,
-                        'threads': [[a1]], 'how': 'update' if j % 2 == 0 else 'values',
-                        'sched': {'kind': 'explicit', 'switches': [[j + 1, 1]]}}
-            sw.add(n, mks)
+            for own in ('LRI', 'LRU'):
+                def mks(j, cls=cls, a1=a1, own=own):
+                    return {'mode': 'snapshot', 'cls': cls, 'max_size': 2, 'on_miss': 'none', 'preload': _PRE,
+                            'threads': [[a1]], 'how': 'update' if j % 2 == 0 else 'values', 'own_cls': own,
+                            'sched': {'kind': 'explicit', 'switches': [[j + 1, 1]]}}
+                sw.add(n, mks)
     if tier == 'thorough':
         for cls in ('LRI', 'LRU'):
             for ia, a in enumerate(SWEEP_OPS):
@@ -484,7 +485,7 @@ def _run_snapshot(case):
         shared[L.dk(k)] = L.dk(v)
         state = M.apply(spec, state, ('set', L.dk(k), L.dk(v)))[0][1]
     ctx2 = L.Ctx(sched)
-    mine = L.make_cache({'cls': 'LRI', 'max_size': 64, 'on_miss': 'none'}, ctx2, sched)
+    mine = L.make_cache({'cls': case.get('own_cls', 'LRI'), 'max_size': 64, 'on_miss': 'none'}, ctx2, sched)
     got = {}
 
     def writer(tid, ops):
@@ -511,7 +512,7 @@ def _run_snapshot(case):
                 threading.RLock = lambda *a, **k: threadsim.SimRLock(sched)
                 threading.Lock = lambda *a, **k: threadsim.SimLock(sched)
                 try:
-                    got['items'] = dict(L.cu.LRI(max_size=64, values=shared))
+                    got['items'] = dict(getattr(L.cu, case.get('own_cls', 'LRI'))(max_size=64, values=shared))
                 finally:
                     threading.RLock, threading.Lock = saved
         except threadsim.SimAbort:
@@ -531,10 +532,10 @@ def _run_snapshot(case):
     elif reason == 'no-progress':
         out.fail('no-progress', sched.step, 'more than %d scheduler steps' % sched.step_cap, mode='snapshot')
     elif 'exc' in got:
-        if got['exc'] in ('RuntimeError', 'KeyError'):
-            out.known.append('C03-F1')
-        else:
-            out.fail('impossible-exception', 0, 'update() from a shared cache raised %s' % got['exc'], mode='snapshot', exc=got['exc'])
+        # (since the repair of C03-F2 update() reads another cache under that cache's lock, in one step: an iteration
+        # error here is no longer the lock-free reader family of C03-F1)
+        out.fail('impossible-exception', 0, '%s.update() (%s) from a shared %s raised %s'
+                 % (case.get('own_cls', 'LRI'), case['how'], case['cls'], got['exc']), mode='snapshot', exc=got['exc'])
     else:
         # every state the shared cache can be in between two of the writers' operations (each is atomic)
         allowed = []
